@@ -132,7 +132,7 @@ def b01 (b : Bool) : String := if b then "1" else "0"
 structure Acc where
   cur : List IL := []                        -- lines of the file being read (reversed)
   curName : Option String := none
-  files : FS Expr Body := []
+  files : List (String × List IL) := []
   sys : List String := []
   opts : List (Opt Body) := []
   main : String := ""
@@ -169,7 +169,7 @@ partial def condLoop (h : IO.FS.Stream) (acc : List L) (bad : Bool) : IO UInt32 
 
 def inclOut (a : Acc) : String :=
   let run (evf : Expr → Defs Body → Except Diag Bool) (g : Bool) :=
-    runMain evf a.files a.sys [] a.opts a.main g a.fuel
+    runMain evf (FS.ofTableNorm a.files) a.sys [] a.opts a.main g a.fuel
   let model := run evC true
   let plain := run evC false
   let region := isErr (run evRegion true) .badDirective
